@@ -158,9 +158,10 @@ class Tracked(object):
 
 
 class World(object):
-    def __init__(self, eng, profile='pubsubs', naddr=1):
+    def __init__(self, eng, profile='pubsubs', naddr=1, jitter_pool=None):
         self.eng = eng
         self.env = senv.Env(eng)
+        self.env.jitter_pool = jitter_pool
         senv.install(self.env)
         self.clock = self.env.clock
         senv.base.MQTTBaseProtocol.callLater = self.callLater
@@ -264,9 +265,9 @@ class World(object):
         return self.track(r, tag, conn)
 
     # ---- network / faults
-    def rx(self, conn, data):
+    def rx(self, conn, data, force=False):
         """deliver bytes; no delivery after the client closed or the loss was reported"""
-        if conn.lost or conn.closing:
+        if (conn.lost or conn.closing) and not force:
             return False
         try:
             conn.p.dataReceived(data)
@@ -276,8 +277,8 @@ class World(object):
             conn.closing = True
         return True
 
-    def rx_list(self, conn, lst):
-        return self.rx(conn, mkbytes(self.eng, lst))
+    def rx_list(self, conn, lst, force=False):
+        return self.rx(conn, mkbytes(self.eng, lst), force)
 
     def advance(self, dt):
         try:
@@ -348,3 +349,32 @@ def parse_writes(world, conn, step=None, v31=False):
         return ref.parse_stream(data, v31=v31, direction=ref.CLIENT_TO_BROKER), None
     except ref.Malformed as m:
         return None, str(m)
+
+
+def exc_sig(where, exc):
+    """signature of an escaped exception: entry point, type, innermost repository function"""
+    fn = '?'
+    tb = exc.__traceback__
+    root = senv.REPO_SRC
+    while tb is not None:
+        f = tb.tb_frame.f_code
+        if f.co_filename.startswith(root):
+            fn = f.co_name
+        tb = tb.tb_next
+    return 'exc:%s:%s:%s' % (where, type(exc).__name__, fn)
+
+
+def check_no_exceptions(world, label='no-exception', steps=None):
+    """every exception that escaped an entry point or a timer is a violation of its own signature"""
+    ok = True
+    for e in world.excs():
+        if steps is not None and e.step not in steps:
+            continue
+        where, exc = e.a
+        world.eng.check(False, label, '%s raised %r in step %d (%s)' % (where, exc, e.step, world.steps[e.step][0]),
+                        sig=label + ':' + exc_sig(where, exc))
+        ok = False
+    for f in world.env.loop_errors:
+        world.eng.check(False, label, 'keepalive loop died with %r' % (f.value,), sig=label + ':' + exc_sig('keepalive-loop', f.value))
+        ok = False
+    return ok
